@@ -38,7 +38,9 @@ pipe_destroy(void *arg)
 {
 	nni_pipe *p = arg;
 
-	p->p_proto_ops.pipe_fini(p->p_proto_data);
+	if (p->p_proto_ok) {
+		p->p_proto_ops.pipe_fini(p->p_proto_data);
+	}
 	p->p_tran_ops.p_fini(p->p_tran_data);
 
 	nni_free(p, p->p_size);
@@ -52,7 +54,9 @@ pipe_reap(void *arg)
 	// If the protocol is just starting this pipe, let it finish first.
 	nni_pipe_start_wait(p);
 
-	p->p_proto_ops.pipe_close(p->p_proto_data);
+	if (p->p_proto_ok) {
+		p->p_proto_ops.pipe_close(p->p_proto_data);
+	}
 
 	// Close the underlying transport.
 	p->p_tran_ops.p_close(p->p_tran_data);
@@ -71,7 +75,9 @@ pipe_reap(void *arg)
 	nni_stat_unregister(&p->st_root);
 #endif
 
-	p->p_proto_ops.pipe_stop(p->p_proto_data);
+	if (p->p_proto_ok) {
+		p->p_proto_ops.pipe_stop(p->p_proto_data);
+	}
 	p->p_tran_ops.p_stop(p->p_tran_data);
 
 	nni_pipe_remove(p);
@@ -300,6 +306,9 @@ pipe_create(nni_pipe **pp, nni_sock *sock, nni_sp_tran *tran, nni_dialer *d,
 
 	rv2 = tops->p_init(tran_data, p);
 	rv3 = pops->pipe_init(proto_data, p, sock_data);
+	// A protocol whose pipe_init fails has already finalized what it had
+	// set up; none of its other pipe functions may be called then.
+	p->p_proto_ok = (rv3 == 0);
 	if (rv1 != 0 || rv2 != 0 || rv3 != 0) {
 		nni_pipe_close(p);
 		nni_pipe_rele(p);
